@@ -165,6 +165,80 @@ def case_override(case):
     return finish_case(I, res)
 
 
+TABLES = {  # language struct -> [(config section, config field, back-end field)]
+    "Swift": [("swift", "type_mappings", "type_mappings"), ("swift", "default_decorators", "default_decorators"), ("swift", "codablevoid_constraints", "codablevoid_constraints"),
+              ("swift", "default_generic_constraints", "default_generic_constraints")],
+    "Kotlin": [("kotlin", "type_mappings", "type_mappings")],
+    "Scala": [("scala", "type_mappings", "type_mappings")],
+    "TypeScript": [("typescript", "type_mappings", "type_mappings")],
+    "Go": [("go", "type_mappings", "type_mappings"), ("go", "uppercase_acronyms", "uppercase_acronyms"), ("go", "no_pointer_slice", "no_pointer_slice")],
+    "Python": [("python", "type_mappings", "type_mappings")],
+}
+
+
+def case_tables(case):
+    """file-only settings reach the back-end value of their own language unchanged (symbolic table contents)"""
+    lang, multi, flag = case
+    from checks.c06 import eqf
+    from vlib.mirsym.models_core import clone_val
+    P = prog()
+    L = P.layout
+    I = new_interp(P)
+    res = {"paths": 0, "violations": [], "case": list(case)}
+    secs = ["swift", "kotlin", "scala", "typescript", "go", "python"]
+
+    def entry(I):
+        vals = {}
+        tables = []
+        for k, sec in enumerate(secs):
+            a, b = z3.BitVec("k_%s" % sec, 32), z3.BitVec("v_%s" % sec, 32)
+            for c in (a, b):
+                I.assume(z3.And(z3.UGE(c, 65), z3.ULE(c, 90)))
+            tm = RMap("HashMap", [[RString([ord("K"), a]), RString([ord("V"), b])]])
+            tables.append((sec, "type_mappings", tm))
+        d1, d2, d3, d4 = [z3.BitVec("d%d" % i, 32) for i in range(4)]
+        for c in (d1, d2, d3, d4):
+            I.assume(z3.And(z3.UGE(c, 65), z3.ULE(c, 90)))
+        tables += [("swift", "default_decorators", RVec([RString([ord("D"), d1]), S("Equatable")])),
+                   ("swift", "codablevoid_constraints", RVec([RString([ord("C"), d2])])),
+                   ("swift", "default_generic_constraints", RVec([RString([ord("G"), d3]), S("Sendable")])),
+                   ("go", "uppercase_acronyms", RVec([RString([ord("A"), d4]), S("ID")])),
+                   ("go", "no_pointer_slice", flag)]
+        cfg = mk_config(I, L, [], tables)
+        snapshot = clone_val(I, cfg)
+        sl = EnumV("typeshare_core::language::SupportedLanguage", L.enums["SupportedLanguage"].index(lang), [])
+        lg = I.call_static("language", [sl, cfg, multi])
+        want_gc = I.call_static("language::GenericConstraints::from_config", [clone_val(I, snapshot.fields[L.structs["Config"].index("swift")].fields[L.structs["SwiftParams"].index("default_generic_constraints")])])
+        return snapshot, lg, want_gc
+
+    for kind, out, pc in I.explore(entry, max_paths=100):
+        res["paths"] += 1
+        if kind == "panic":
+            res["violations"].append({"kind": "panic", "msg": out.msg}); continue
+        cfg, lg, want_gc = out
+        lgv = unbox(lg)
+        lt = lgv.ty.split("::")[-1]
+        if lt != lang:
+            res["violations"].append({"kind": "wrong-back-end", "got": lt}); continue
+        cn = L.structs["Config"]
+        for sec, fld, bfld in TABLES[lang]:
+            have = lgv.fields[L.structs[lang].index(bfld)]
+            want = cfg.fields[cn.index(sec)].fields[L.structs[PARAMS[sec]].index(fld)]
+            if fld == "default_generic_constraints":
+                want = want_gc
+            e = eqf(have, want)
+            m = None
+            if e is False:
+                m = I.sat_model(z3.BoolVal(True))
+            elif e is not True:
+                m = I.sat_model(z3.Not(e))
+            if m is not None:
+                res["violations"].append({"kind": "file-only-setting-changed", "setting": "%s.%s" % (sec, fld), "lang": lang})
+        if lang == "Swift" and lgv.fields[L.structs["Swift"].index("multi_file")] is not multi:
+            res["violations"].append({"kind": "file-only-setting-changed", "setting": "multi_file", "lang": lang})
+    return finish_case(I, res)
+
+
 def case_store(case):
     exists, given = case
     P = prog()
@@ -290,7 +364,9 @@ def run(rep, tier, only=None):
                   "store_config": "existing / missing target, explicit / default path", "find_configuration_file": "cwd depth 0..4, presence in every ancestor symbolic"}
     rep.outside = ["TOML serialisation / deserialisation (toml crate; not modelled) and therefore the -g round trip", "clap's argument parsing"]
     rep.assumptions = ["toml::to_string_pretty is a stub returning an opaque non-empty text", "Config / Args values are built directly (clap and toml are not executed)"]
-    groups = [("override", "case_override", cases), ("store_config", "case_store", [(e, g) for e in (False, True) for g in (False, True)]), ("find_config", "case_find", list(range(0, 5)))]
+    tcases = [(l, m, f) for l in ("Swift", "Kotlin", "Scala", "TypeScript", "Go", "Python") for m in (False, True) for f in (False, True)]
+    rep.bounds["tables"] = "type_mappings of all six sections, Swift default_decorators / codablevoid_constraints / default_generic_constraints, Go uppercase_acronyms / no_pointer_slice with symbolic entries: each reaches the back-end value of its own language unchanged; multi_file reaches Swift"
+    groups = [("override", "case_override", cases), ("tables", "case_tables", tcases), ("store_config", "case_store", [(e, g) for e in (False, True) for g in (False, True)]), ("find_config", "case_find", list(range(0, 5)))]
     for gname, fn, cs in groups:
         if only and gname not in only:
             continue
@@ -390,6 +466,12 @@ def native_cli(gname, case, v):
             if (pat % want) not in out:
                 return True, desc + " but the generated code has no `%s`" % (pat % want), payload
             return False, "generated code contains `%s`" % (pat % want), None
+        if gname == "tables":
+            lang, multi, flag = case
+            sec, fld = v["setting"].split(".") if "." in v["setting"] else ("swift", v["setting"])
+            payload = {"op": "tables", "lang": lang, "multi": multi, "flag": flag, "setting": v["setting"]}
+            ok, why = real_tables(d, lang, sec, fld)
+            return ok, why, (payload if ok else None)
         if gname == "store_config":
             exists, given = case
             path = os.path.join(d, "my.toml") if given else None
@@ -423,6 +505,36 @@ def real_generate(d, lang, present, cli, fil):
     drv().cli(argv_of(lang, present, cli)[1:], d)
     p = os.path.join(d, "out.txt")
     return open(p).read() if os.path.exists(p) else ""
+
+
+TABLE_TOML = {"type_mappings": '[%s.type_mappings]\nKx = "Vy"\n', "default_decorators": '[swift]\ndefault_decorators = ["Dx", "Equatable"]\n',
+              "codablevoid_constraints": '[swift]\ncodablevoid_constraints = ["Cx"]\n', "default_generic_constraints": '[swift]\ndefault_generic_constraints = ["Gx", "Sendable"]\n',
+              "uppercase_acronyms": '[go]\nuppercase_acronyms = ["AB", "ID"]\n', "no_pointer_slice": '[go]\nno_pointer_slice = true\n'}
+
+
+def real_tables(d, lang, sec, fld):
+    """the real binary with and without the file-only setting: the generated code must differ (the template uses every setting)"""
+    import os
+    if fld == "multi_file":
+        return None, "multi_file is not a file setting"
+    os.makedirs(os.path.join(d, "src"), exist_ok=True)
+    open(os.path.join(d, "src", "lib.rs"), "w").write("#[typeshare]\npub struct Foo<T> { pub a: Kx, pub ab_id: T, pub u: (), pub v: Option<Vec<u32>> }\n#[typeshare]\npub struct Kx { pub k: u32 }\n")
+    base = '[go]\npackage = "proto"\n[scala]\npackage = "com.x"\n' if fld not in ("uppercase_acronyms", "no_pointer_slice") else '[scala]\npackage = "com.x"\n'
+    body = TABLE_TOML[fld] % sec if "%s" in TABLE_TOML[fld] else TABLE_TOML[fld]
+    if fld in ("uppercase_acronyms", "no_pointer_slice"):
+        body = body.replace("[go]\n", '[go]\npackage = "proto"\n')
+        base_wo = base + '[go]\npackage = "proto"\n'
+    else:
+        base_wo = base
+    outs = []
+    for tag, toml in (("with", base + body), ("without", base_wo)):
+        open(os.path.join(d, "typeshare.toml"), "w").write(toml)
+        out = os.path.join(d, "out-%s.txt" % tag)
+        rc, so, se = drv().cli(["src", "--lang", lang.lower(), "-o", out, "-c", "typeshare.toml"], d)
+        outs.append(open(out).read() if os.path.exists(out) else "<no output: %s>" % se[-200:])
+    if outs[0] == outs[1]:
+        return True, "--lang %s: `%s` in typeshare.toml changes nothing in the generated code (file-only setting %s.%s is not applied)" % (lang.lower(), body.strip().replace("\n", " "), sec, fld)
+    return False, "the real binary's output changes with %s.%s" % (sec, fld)
 
 
 def real_find(d, depth, present):
@@ -462,6 +574,8 @@ def replay(body):
             else:
                 r = real_effective(c["lang"], c["present"], c["cli"], c["file"])
                 ok, why = (("rejected" in r) != (c["expect"] == "rejected")), str(r)
+        elif c["op"] == "tables":
+            ok, why, _ = native_cli("tables", (c["lang"], c["multi"], c["flag"]), {"setting": c["setting"]})
         elif c["op"] == "store_config":
             ok, why, _ = native_cli("store_config", (c["exists"], c["given"]), {})
         else:
